@@ -209,10 +209,30 @@ def module_work(name, mod, tier, rng, viols, cells, counters, samples, probe, ca
                     {'module': name, 'number': v, 'generator': tag[1], 'kind': 'm0'})
     # M1: layout inference per (generator, length)
     mapped_rules = {}
+    extra_synth = {}
     for gname, g in gens.items():
         by_len = {}
         for v in corpus:
             by_len.setdefault(len(v), []).append(v)
+        for L in list(by_len):
+            if len(by_len[L]) < 6:
+                # few documented numbers of this length: synthesised ones (accepted by the library) join the tally
+                if L not in extra_synth:
+                    extra_synth[L] = [x for x in C.synth_valid(name, 40 if tier == 'quick' else 400, rng, base=by_len[L])
+                                      if len(x) == L and C.outcome(mod.validate, x) == ('ok', x)]
+                    synth.extend(x for x in extra_synth[L] if x not in synth)
+                add_ = [x for x in synth if len(x) == L and x not in by_len[L]][:10]
+                if add_:
+                    # only where validate() is seen to consult this generator for the numbers of the class (otherwise a
+                    # rule that fits a handful of synthesised numbers may be a coincidence)
+                    cons = 0
+                    for v in by_len[L] + add_:
+                        del calls[:]
+                        C.outcome(mod.validate, v)
+                        if gname.split('[')[0] in {tag[1] for (tag, _a, _r) in calls if tag[0] == name}:
+                            cons += 1
+                    if cons >= 0.9 * len(by_len[L] + add_):
+                        by_len[L] = by_len[L] + add_
         for L, vs in by_len.items():
             tally = {}
             applicable = 0
